@@ -320,8 +320,16 @@ def fmt(ctx: Ctx) -> List[Ob]:
             if len(vds) == 1 and len(cp[0].args) >= 3:
                 vals = reaching_values(ctx, w, cp[0], cp[0].args[2])
                 okv = any(v_ is vds[0][0] for v_ in vals)
-            O(["C05", "C12"], w, "value lists are turned into value->index dicts (index = position in the header's list)", okv,
-              "value indices must be positions in the list written to the header")
+            whyv = "value indices must be positions in the list written to the header"
+            if okv is None:
+                # witnessed wrong: the table is filed under another key than the one the caller (and the header) names
+                for dc_ in [x for x in ast.walk(w.node) if isinstance(x, ast.DictComp) and len(x.generators) == 1 and norm(x.generators[0].iter) == "value_map.items()"
+                            and isinstance(x.generators[0].target, ast.Tuple) and len(x.generators[0].target.elts) == 2]:
+                    if norm(dc_.key) != norm(dc_.generators[0].target.elts[0]):
+                        okv = False
+                        whyv = (f"the value table of key k is filed under `{norm(dc_.key)}`: the header still declares it under k, which is the name the reader "
+                                "(and _compress_entry, for the long key) looks it up by")
+            O(["C05", "C12"], w, "value lists are turned into value->index dicts (index = position in the header's list)", okv, whyv)
     # --------------------------------------------------------------- readers
     for q in ("Tree._from_list", "TypedTree._from_list"):
         r = m.func(q)
